@@ -337,6 +337,15 @@ fn main() {
                 check_level_kind_values(cx)
             });
 
+            // artifacts of the libFuzzer target `parse_any` are replayed through the same entry
+            s.manual("fuzz-artifact", Vec::<Vec<u8>>::new(), |bytes, cx| {
+                cx.nontrivial(true);
+                match fuzz_entry(bytes) {
+                    Ok(()) => Ok(()),
+                    Err(f) => cx.fail(f.sig, f.msg),
+                }
+            });
+
             // (b) texts
             s.gen("near-miss", s.n(400_000, 20_000_000), near_miss, check_near_miss);
             let bases: u8 = if s.quick() { 2 } else { 5 };
